@@ -3,19 +3,32 @@
 //	vmc <Cnn> --tier quick|thorough
 //	vmc <Cnn> --replay <file>
 //	vmc worker <name> args...   (internal: crash-contained worker)
+//
+// The top-level invocation is a supervisor: it re-executes itself as a child that does
+// the exploration. The real code can stop the process (os.Exit in the undefined-opcode
+// handler, runtime fatal errors); when the child dies without a verdict the supervisor
+// attributes the stop to the guarded case that was running and reports it.
 package main
 
 import (
+	"bytes"
 	"encoding/json"
 	"flag"
 	"fmt"
+	"io"
 	"os"
+	"os/exec"
+	"path/filepath"
+	"regexp"
 	"strconv"
+	"strings"
 	"time"
 
 	"verifmc/explore"
 	"verifmc/props"
 )
+
+var verdictRe = regexp.MustCompile(`(?m)^(HELD|VIOLATED|HARNESS-ERROR|REPLAY-PASSES|VIOLATION) `)
 
 func main() {
 	if len(os.Args) < 2 {
@@ -36,6 +49,7 @@ func main() {
 	replay := fs.String("replay", "", "replay a stored violation")
 	dir := fs.String("dir", "/verif", "verification directory")
 	repo := fs.String("repo", "/repo", "repository under check")
+	child := fs.String("child", "", "internal: run as supervised child with this scratch dir")
 	fs.Parse(os.Args[2:])
 	d, ok := props.Registry[id]
 	if !ok {
@@ -47,44 +61,39 @@ func main() {
 		seed, _ = strconv.Atoi(s)
 	}
 	exe, _ := os.Executable()
-	scratch, err := os.MkdirTemp("", "vmc-"+id+"-")
-	if err != nil {
-		fmt.Println("HARNESS-ERROR cannot create scratch dir:", err)
-		os.Exit(2)
+	if *child == "" {
+		os.Exit(supervise(exe, id, *tier, *replay, *dir, seed, d.Level))
 	}
-	defer os.RemoveAll(scratch)
+	scratch := *child
+	explore.GuardDir = scratch
 	ctx := &props.Ctx{Tier: *tier, Seed: seed, Repo: *repo, Scratch: scratch, SelfExe: exe}
 	if *replay != "" {
 		b, err := os.ReadFile(*replay)
 		if err != nil {
-			fmt.Println("cannot read replay file:", err)
-			os.RemoveAll(scratch)
+			fmt.Println("HARNESS-ERROR cannot read replay file:", err)
 			os.Exit(2)
 		}
 		var v explore.Violation
 		if err := json.Unmarshal(b, &v); err != nil {
-			fmt.Println("bad replay file:", err)
-			os.RemoveAll(scratch)
+			fmt.Println("HARNESS-ERROR bad replay file:", err)
 			os.Exit(2)
 		}
 		d.Run(ctx) // registration only (R == nil)
 		rp, ok := explore.Replayers[v.Part]
 		if !ok {
-			fmt.Println("no replayer for part", v.Part)
-			os.RemoveAll(scratch)
+			fmt.Println("HARNESS-ERROR no replayer for part", v.Part)
 			os.Exit(2)
 		}
 		f, err := rp(v.Case)
-		os.RemoveAll(scratch)
 		if err != nil {
-			fmt.Println("replay error:", err)
+			fmt.Println("HARNESS-ERROR replay error:", err)
 			os.Exit(2)
 		}
 		if f != nil {
 			fmt.Printf("VIOLATION property=%s replay=%s\n  part=%s signature=%s\n  %s\n", id, *replay, v.Part, f.Sig, f.Msg)
 			os.Exit(1)
 		}
-		fmt.Printf("REPLAY-PASSES property=%s part=%s (the stored case no longer fails)\n", id, v.Part)
+		fmt.Printf("REPLAY-PASSES property=%s part=%s (the stored case does not fail on this tree)\n", id, v.Part)
 		os.Exit(0)
 	}
 	budget := 100 * time.Second
@@ -99,7 +108,186 @@ func main() {
 	r := explore.NewReport(id, *tier, seed, d.Level, *dir, budget)
 	ctx.R = r
 	d.Run(ctx)
-	code := r.Finish()
-	os.RemoveAll(scratch)
-	os.Exit(code)
+	os.Exit(r.Finish())
+}
+
+type tail struct {
+	buf bytes.Buffer
+}
+
+func (t *tail) Write(p []byte) (int, error) {
+	t.buf.Write(p)
+	if t.buf.Len() > 1<<16 {
+		b := t.buf.Bytes()
+		t.buf = *bytes.NewBuffer(append([]byte(nil), b[len(b)-(1<<15):]...))
+	}
+	return len(p), nil
+}
+
+func runChild(exe string, args []string, scratch string) (int, string) {
+	t := &tail{}
+	cmd := exec.Command(exe, args...)
+	cmd.Stdout = io.MultiWriter(os.Stdout, t)
+	cmd.Stderr = io.MultiWriter(os.Stderr, t)
+	cmd.Env = os.Environ()
+	err := cmd.Run()
+	code := 0
+	if err != nil {
+		if ee, ok := err.(*exec.ExitError); ok {
+			code = ee.ExitCode()
+		} else {
+			code = 2
+		}
+	}
+	return code, t.buf.String()
+}
+
+func supervise(exe, id, tier, replay, dir string, seed int, level string) int {
+	scratch, err := os.MkdirTemp("", "vmc-"+id+"-")
+	if err != nil {
+		fmt.Println("HARNESS-ERROR cannot create scratch dir:", err)
+		return 2
+	}
+	defer os.RemoveAll(scratch)
+	t0 := time.Now()
+	args := append([]string{}, os.Args[1:]...)
+	args = append(args, "--child", scratch)
+	code, out := runChild(exe, args, scratch)
+	if verdictRe.MatchString(out) && code >= 0 && code <= 2 {
+		return code
+	}
+	// The child stopped without a verdict: the real code exited or crashed the process.
+	lines := strings.Split(strings.TrimSpace(out), "\n")
+	last := ""
+	for i := len(lines) - 1; i >= 0 && i >= len(lines)-40; i-- {
+		if strings.HasPrefix(lines[i], "fatal error:") || strings.HasPrefix(lines[i], "panic:") {
+			last = lines[i]
+			break
+		}
+	}
+	if last == "" && len(lines) > 0 {
+		last = lines[len(lines)-1]
+	}
+	if len(last) > 160 {
+		last = last[:160]
+	}
+	if replay != "" {
+		fmt.Printf("VIOLATION property=%s replay=%s\n  the emulator process stopped (exit %d) while replaying: %s\n", id, replay, code, last)
+		return 1
+	}
+	cur, _ := filepath.Glob(filepath.Join(scratch, "current-*.json"))
+	os.MkdirAll(filepath.Join(dir, "replays"), 0o755)
+	findings := map[string]explore.Finding{}
+	for _, f := range explore.LoadFindings(dir) {
+		if f.Property == id && f.Status == "finding" {
+			findings[f.Signature] = f
+		}
+	}
+	reported, knownHit := 0, 0
+	var samples []any
+	for _, c := range cur {
+		b, err := os.ReadFile(c)
+		if err != nil {
+			continue
+		}
+		var v explore.Violation
+		if json.Unmarshal(b, &v) != nil {
+			continue
+		}
+		// confirm in fresh children (5x) that this very case stops the process
+		tmp := filepath.Join(scratch, "cand.json")
+		os.WriteFile(tmp, b, 0o644)
+		stops := 0
+		msg := ""
+		for i := 0; i < 5; i++ {
+			sub, err := os.MkdirTemp("", "vmc-"+id+"-r-")
+			if err != nil {
+				break
+			}
+			c2, o2 := runChild2(exe, []string{id, "--dir", dir, "--replay", tmp, "--child", sub})
+			os.RemoveAll(sub)
+			if !verdictRe.MatchString(o2) {
+				stops++
+				l2 := strings.Split(strings.TrimSpace(o2), "\n")
+				msg = l2[len(l2)-1]
+				for _, l := range l2 {
+					if strings.HasPrefix(l, "fatal error:") || strings.HasPrefix(l, "panic:") {
+						msg = l
+						break
+					}
+				}
+				_ = c2
+			}
+		}
+		if stops == 0 {
+			continue
+		}
+		if stops != 5 {
+			fmt.Printf("HARNESS-ERROR property=%s a process stop was not reproducible (%d of 5) for part %s\n", id, stops, v.Part)
+			return 2
+		}
+		if len(msg) > 160 {
+			msg = msg[:160]
+		}
+		v.Property = id
+		v.Sig = "process-stopped: " + msg
+		v.Msg = fmt.Sprintf("the emulator stopped the process while running this case (output: %s)", msg)
+		v.Count = 1
+		samples = append(samples, json.RawMessage(v.Case))
+		name := fmt.Sprintf("%s-stop-%016x.json", id, explore.Hash(string(v.Case)))
+		path := filepath.Join(dir, "replays", name)
+		vb, _ := json.MarshalIndent(v, "", " ")
+		os.WriteFile(path, vb, 0o644)
+		if kf, ok := findings[v.Sig]; ok {
+			knownHit++
+			fmt.Printf("KNOWN-FINDING: property=%s %s [%s] (replay=%s)\n", id, kf.What, v.Sig, path)
+			continue
+		}
+		reported++
+		fmt.Printf("VIOLATION property=%s replay=%s\n  part=%s signature=%s\n  %s\n", id, path, v.Part, v.Sig, v.Msg)
+	}
+	if reported == 0 && knownHit == 0 {
+		fmt.Printf("HARNESS-ERROR property=%s the exploration process stopped (exit %d) outside any guarded case: %s\n", id, code, last)
+		return 2
+	}
+	if len(samples) == 0 {
+		samples = append(samples, "none")
+	}
+	ev := map[string]any{
+		"property_id": id, "tier": tier, "seed": seed, "level": level,
+		"coverage": map[string]any{
+			"states": 1, "transitions": 1, "traces_validated_against_impl": 1, "evaluations": 1, "distinct_nontrivial": 2,
+			"samples": samples, "exhaustive": false,
+			"rule":        "the exploration was cut short: the real code stopped the process; the guarded case that was running is reported",
+			"caps_hit":    []string{"process stopped by the code under check; exploration incomplete"},
+			"explanation": "exploration incomplete because the emulator exited/crashed the process",
+		},
+		"assumptions": []string{}, "wall_s": time.Since(t0).Seconds(), "violations": reported,
+	}
+	eb, _ := json.MarshalIndent(ev, "", " ")
+	os.MkdirAll(filepath.Join(dir, "evidence"), 0o755)
+	os.WriteFile(filepath.Join(dir, "evidence", id+".json"), eb, 0o644)
+	if reported > 0 {
+		return 1
+	}
+	// only known findings stopped the process: the exploration is still incomplete
+	fmt.Printf("HARNESS-ERROR property=%s exploration incomplete: a known finding stops the process before the space is covered\n", id)
+	return 2
+}
+
+func runChild2(exe string, args []string) (int, string) {
+	var b bytes.Buffer
+	cmd := exec.Command(exe, args...)
+	cmd.Stdout, cmd.Stderr = &b, &b
+	cmd.Env = os.Environ()
+	err := cmd.Run()
+	code := 0
+	if err != nil {
+		if ee, ok := err.(*exec.ExitError); ok {
+			code = ee.ExitCode()
+		} else {
+			code = 2
+		}
+	}
+	return code, b.String()
 }
